@@ -20,11 +20,13 @@ empty tensors, the model does not describe that), constructor guard `Cfg.valid` 
 * recursion clause      : `par_eq_seq_integrate`, `par_eq_seq`, `par_eq_seq_init` — every frame count, no hypothesis;
 * chunk invariance      : `chunk_invariant_two`, `chunk_invariant` (exact, unit increments), `chunk_invariant_rot_cov` (no hypothesis),
                           §7 `chunk_two_general` / `chunk_two_every_stream` (every increment, explicit defect and bound, one cut),
-                          §11 `chunk_list_defect_bound` / `chunk_list_every_stream` (any number of cuts);
+                          §11 `chunk_list_defect_bound` / `chunk_list_every_stream` (any number of cuts), §12 closed form
+                          `chunk_list_every_stream_closed` (`≤ 12·N·eps⁶·(#chunks+1)·Σ|dt|‖a‖`);
 * rank equivalence      : carried by the HARNESS (rank-1/2/3 calls bit-identical on the real code; `shape` stream ties `_check` and the
                           rank assertion to `checkShape` / `rankOk`); `forwardItem` is defined as validate-lift-call, the
                           consequences (`rank_lift_equiv`, `rank_equiv_H/FH`, `rank_assert`) are in `Lemmas/ImuGlue.lean`;
-* covariance            : `cov_psd`, `cov_psd_init`, `cov_state_psd`, `cov_psd_history` (symmetric PSD, `dt > 0`),
+* covariance            : `cov_psd`, `cov_psd_init`, `cov_state_psd`, `cov_psd_history`, §12 `cov_psd_requests` (symmetric PSD, `dt > 0`,
+                          any history of requests incl. explicit init_state dicts and failing calls),
                           `cov_eq_recursion`, `cov_eq_recursion_init` (`C ← A C Aᵀ + B`, every `F`);
 * glue lemmas (restatements / unfoldings of model definitions: error-path atomicity of `callE`, `resolveCov` / `forwardArgs`,
   gravity algebra, `code_order`, …) live in `Lemmas/ImuGlue.lean` and are not counted as property theorems.
@@ -723,6 +725,136 @@ example : ∃ (cfg : Cfg ℝ) (st : State ℝ) (fr : Nat → Frame ℝ) (rs : Li
   · show (2:ℝ)^(-52:ℤ) ≤ 1
     rw [_root_.zpow_neg]; exact inv_le_one_of_one_le₀ (by norm_num)
   · simp only [State.fresh]; lie_unfold; norm_num
+
+
+/-! ## 12. closed form of the chunk bound; PSD over histories of requests (pass 10) -/
+
+/-- **Closed form of the chunk-invariance bound.** Any chunk list, every stream of the model, `0 ≤ eps ≤ 1`, unit start, and
+`2·N·eps⁶ ≤ 1` (`N` = total number of frames; for float64 this allows `N` up to `2³¹¹`): the chunked and the one-call results
+have equal rotations and
+`‖Δvel‖ ≤ 12·N·eps⁶·(#chunks+1)·Σ_{i} |dt_i|‖a_i‖`,
+`‖Δpos‖ ≤ 12·N·eps⁶·(#chunks+1)·Σ_{i} (|dt_i| Σ_{l<i} |dt_l|‖a_l‖ + ½ dt_i²‖a_i‖)`,
+sums over the frames up to the compared one, `a_i` the gravity-free acceleration of frame `i`. -/
+theorem chunk_list_every_stream_closed (cfg : Cfg ℝ) (hr : cfg.reset = false) (hp : cfg.propCov = true) (h0 : 0 ≤ cfg.eps)
+    (h1 : cfg.eps ≤ 1) (st : State ℝ) (hR0 : st.rot.normSq = 1) (fr : Nat → Frame ℝ) (rs : List Nat) (hrs : ∀ y ∈ rs, 1 ≤ y)
+    (m j : Nat) (hj : j < m) (hN : 2 * ((rs.sum + m : Nat) : ℝ) * cfg.eps ^ 6 ≤ 1) :
+    let r2 := call cfg (stAfterR cfg st fr rs) none (fun i => fr (rs.sum + i)) m
+    let r := call cfg st none fr (rs.sum + m)
+    let C := 12 * ((rs.sum + m : Nat) : ℝ) * cfg.eps ^ 6 * ((rs.length : ℝ) + 1)
+    (outAt r.outs (rs.sum + j)).rot = (outAt r2.outs j).rot ∧
+    ((outAt r.outs (rs.sum + j)).vel.sub (outAt r2.outs j).vel).norm
+      ≤ C * ∑ i ∈ Finset.range (rs.sum + (j+1)), |(fr i).dt| * (aSeq cfg.eps cfg.g st.rot fr i).norm ∧
+    ((outAt r.outs (rs.sum + j)).pos.sub (outAt r2.outs j).pos).norm
+      ≤ C * ∑ i ∈ Finset.range (rs.sum + (j+1)), (|(fr i).dt| *
+          (∑ l ∈ Finset.range i, |(fr l).dt| * (aSeq cfg.eps cfg.g st.rot fr l).norm)
+        + 1 / 2 * ((fr i).dt * (fr i).dt) * (aSeq cfg.eps cfg.g st.rot fr i).norm) := by
+  intro r2 r C
+  obtain ⟨g1, g2, g3⟩ := chunk_list_every_stream cfg hr hp h0 h1 st hR0 fr rs hrs m j hj
+  have hε : 0 ≤ cfg.eps ^ 6 := by positivity
+  have hK := K_closed (cfg.eps ^ 6) hε (rs.sum + m) hN
+  have hl : (0:ℝ) ≤ (rs.length : ℝ) + 1 := by positivity
+  have nA := sumA_nonneg cfg.eps cfg.g st.rot fr 0 (rs.sum + (j+1))
+  have nP := sumP_nonneg cfg.eps cfg.g st.rot fr 0 (rs.sum + (j+1))
+  have cA := sumA_closed cfg.eps cfg.g st.rot fr 0 (rs.sum + (j+1))
+  have cP := sumP_closed cfg.eps cfg.g st.rot fr 0 (rs.sum + (j+1))
+  simp only [Nat.zero_add] at cA cP
+  refine ⟨g1, ?_, ?_⟩
+  · rw [← cA]
+    refine le_trans g2 ?_
+    exact mul_le_mul_of_nonneg_right (mul_le_mul_of_nonneg_right hK hl) nA
+  · rw [← cP]
+    refine le_trans g3 ?_
+    exact mul_le_mul_of_nonneg_right (mul_le_mul_of_nonneg_right hK hl) nP
+
+/-- non-vacuity of `2·N·eps⁶ ≤ 1`: float64 (`eps = 2⁻⁵²`) and a million frames -/
+example : 2 * ((1000000 : Nat) : ℝ) * ((2:ℝ)^(-52:ℤ)) ^ 6 ≤ 1 := by
+  have h : ((2:ℝ)^(-52:ℤ)) ^ 6 ≤ (2:ℝ)^(-52:ℤ) := by
+    have h1 : (2:ℝ)^(-52:ℤ) ≤ 1 := by rw [_root_.zpow_neg]; exact inv_le_one_of_one_le₀ (by norm_num)
+    have h0 : (0:ℝ) ≤ (2:ℝ)^(-52:ℤ) := by positivity
+    calc ((2:ℝ)^(-52:ℤ)) ^ 6 = ((2:ℝ)^(-52:ℤ)) ^ 5 * (2:ℝ)^(-52:ℤ) := pow_succ _ _
+      _ ≤ 1 * (2:ℝ)^(-52:ℤ) := mul_le_mul_of_nonneg_right (pow_le_one₀ h0 h1) h0
+      _ = (2:ℝ)^(-52:ℤ) := one_mul _
+  have h2 : (2:ℝ)^(-52:ℤ) ≤ 1 / 2000000 := by
+    rw [_root_.zpow_neg, show ((2:ℝ) ^ (52:ℤ)) = (2:ℝ) ^ (52:ℕ) from by norm_cast]
+    rw [inv_le_comm₀ (by positivity) (by norm_num)]
+    norm_num
+  push_cast
+  have h3 : ((2:ℝ)^(-52:ℤ)) ^ 6 ≤ 1 / 2000000 := le_trans h h2
+  generalize ((2:ℝ)^(-52:ℤ)) ^ 6 = x at h3 ⊢
+  linarith
+
+
+/-- the carried covariance stays PSD through a call with ANY `init_state` (dict covariance PSD if given) -/
+theorem cov_state_psd_init (cfg : Cfg ℝ) (hcfg : cfg.valid = true) (st : State ℝ) (init : Option (Init ℝ))
+    (fr : Nat → Frame ℝ) (F : Nat) (hst : (toM st.cov).PosSemidef) (h0 : (toM (startCov st init)).PosSemidef)
+    (hf : ∀ j, j < F → FrameOk (fr j)) :
+    (toM (call cfg st init fr F).st.cov).PosSemidef := by
+  by_cases hr : cfg.reset = true
+  · rw [call_st_reset cfg st init fr F hr]; exact hst
+  · have hr' : cfg.reset = false := by simpa using hr
+    have hp : cfg.propCov = true := by
+      unfold Cfg.valid at hcfg
+      rw [hr'] at hcfg
+      simpa using hcfg
+    obtain ⟨c, hc, hpsd, _⟩ := cov_psd_init cfg hp st init fr F h0 hf
+    rw [call_st_cov_gen cfg st init fr F hr' hp c hc]
+    exact hpsd
+
+/-- an admissible request for the covariance clause: at least one frame, `dt > 0` and non-negative measurement covariances on
+its frames, and a PSD covariance in the `init_state` dict if one is given -/
+def ReqOk (q : CallReq ℝ) : Prop :=
+  1 ≤ q.F ∧ (∀ j, j < q.F → FrameOk (q.fr j)) ∧ (∀ i c, q.init = some i → i.cov = some c → (toM c).PosSemidef)
+
+theorem startCov_psd (st : State ℝ) (init : Option (Init ℝ)) (hst : (toM st.cov).PosSemidef)
+    (hi : ∀ i c, init = some i → i.cov = some c → (toM c).PosSemidef) : (toM (startCov st init)).PosSemidef := by
+  cases init with
+  | none => exact hst
+  | some i =>
+    obtain ⟨p, r, v, cv, rj⟩ := i
+    cases cv with
+    | none => exact hst
+    | some c => exact hi _ c rfl rfl
+
+/-- **PSD over ALL histories of requests.** One object serves any sequence of requests — default or explicit `init_state`
+(with or without `cov` / `Rij` keys), per-call covariances, any frame counts `≥ 1`, requests that RAISE in between (the caller
+catches and goes on), `reset` either way: starting from a PSD carried covariance, every covariance that is returned is symmetric
+positive semidefinite and the carried covariance stays PSD. -/
+theorem cov_psd_requests (cfg : Cfg ℝ) (hp : cfg.propCov = true) (qs : List (CallReq ℝ)) :
+    ∀ st : State ℝ, (toM st.cov).PosSemidef → (∀ q ∈ qs, ReqOk q) →
+      (∀ r ∈ okResults (runReqs cfg st qs).1, ∃ c, r.cov = some c ∧ (toM c).PosSemidef ∧ (toM c)ᵀ = toM c) ∧
+      (toM (runReqs cfg st qs).2.cov).PosSemidef := by
+  have hv : cfg.valid = true := by unfold Cfg.valid; rw [hp]; simp
+  induction qs with
+  | nil => intro st hst _; exact ⟨fun r hr => by simp [runReqs, okResults] at hr, hst⟩
+  | cons q qs ih =>
+    intro st hst hq
+    obtain ⟨_, hF, hI⟩ := hq q (by simp)
+    have hrest : ∀ q' ∈ qs, ReqOk q' := fun q' h' => hq q' (by simp [h'])
+    by_cases hok : q.ok = true
+    · have h0 := startCov_psd st q.init hst hI
+      obtain ⟨i1, i2⟩ := ih (call cfg st q.init q.fr q.F).st
+        (cov_state_psd_init cfg hv st q.init q.fr q.F hst h0 hF) hrest
+      simp only [runReqs, ok_call cfg st q hok, okResults]
+      refine ⟨?_, i2⟩
+      intro r hr
+      simp only [List.mem_cons] at hr
+      rcases hr with rfl | hr
+      · exact cov_psd_init cfg hp st q.init q.fr q.F h0 hF
+      · exact i1 r hr
+    · have hok' : q.ok = false := by simpa using hok
+      simp only [runReqs, failed_call_atomic cfg st q hok', okResults]
+      exact ih st hst hrest
+
+/-- non-vacuity: a request with an explicit PSD covariance (the zero matrix) in its dict -/
+example : ReqOk (⟨2, fun _ => ⟨0.01, ⟨0.1, 0.2, 0.3⟩, ⟨0, 0, 9.81⟩, none, ⟨1e-5, 1e-5, 1e-5⟩, ⟨6e-3, 6e-3, 6e-3⟩⟩,
+    some ⟨⟨1, 2, 3⟩, ⟨0.6, 0, 0, 0.8⟩, ⟨0, 1, 0⟩, some M9.zero, some none⟩, true⟩ : CallReq ℝ) := by
+  refine ⟨by norm_num, fun j _ => by unfold FrameOk; norm_num, ?_⟩
+  intro i c hi hc
+  simp only [Option.some.injEq] at hi
+  subst hi
+  simp only [Option.some.injEq] at hc
+  subst hc
+  rw [toM_zero]; exact Matrix.PosSemidef.zero
 
 
 /-! ## non-vacuity of the hypotheses -/
